@@ -2,7 +2,7 @@
 # Runs every seeded change against the quick check of its property, in a scratch worktree of /repo and a snapshot of /verif.
 # usage: tools/seed_matrix.sh [seed ...]   (default: all); output: one line per seed
 set -u
-snap=/tmp/wt/verif-snap; wt=/tmp/wt/matrix
+tag=${MATRIX_TAG:-}; snap=/tmp/wt/verif-snap$tag; wt=/tmp/wt/matrix$tag
 git -C /verif worktree remove --force $snap 2>/dev/null; git -C /verif worktree add --detach $snap HEAD >/dev/null 2>&1
 git -C /repo worktree remove --force $wt 2>/dev/null; git -C /repo worktree add --detach $wt HEAD >/dev/null 2>&1
 seeds=${@:-$(ls /verif/seeded)}
